@@ -1094,6 +1094,8 @@ func c15RunJob(id, attempt int, kind string, cap, sub int, seed uint64, nops int
 		c15Directed(w, &c, sub)
 	case "concurrent":
 		c15Concurrent(w, newVrand(seed), &c)
+	case "putrace":
+		c15PutRace(w, &c)
 	default:
 		c15History(w, newVrand(seed), &c, nops)
 	}
@@ -1134,6 +1136,8 @@ func TestVerif_C15(t *testing.T) {
 		jobs = append(jobs, job{id, "concurrent", cp, 0, r.u64()})
 		id++
 	}
+	jobs = append(jobs, job{id, "putrace", 1, 0, 0})
+	id++
 	for k := 0; k < n; k++ {
 		jobs = append(jobs, job{id, "random", 1 + r.intn(3), 0, r.u64()})
 		id++
